@@ -6,13 +6,15 @@ package fsmx
 import (
 	"bytes"
 	"fmt"
+	"github.com/cockroachdb/pebble"
 	"hash/fnv"
 	"io"
 	"os"
-	"runtime"
+	"reflect"
 	"strings"
 	"sync"
 	"sync/atomic"
+	"unsafe"
 
 	"github.com/cockroachdb/pebble/vfs"
 	"github.com/jamf/regatta/regattapb"
@@ -66,17 +68,10 @@ func NewEnv() *Env {
 		_ = f.Close()
 	}
 	e := &Env{Mem: mem, FS: &CountFS{FS: mem, mem: mem, armAt: -1}}
-	// regatta's pebble.WithFS drops the closer of the disk-health wrapper it puts around the file
-	// system, so every opened DB leaves one ticker goroutine behind that keeps the wrapper - and
-	// through it this disk - reachable for ever. Millions of executions each with its own disk would
-	// exhaust memory: once the harness no longer holds the Env (every Inst holds it), the wrapper is
-	// detached from the disk's content.
-	runtime.SetFinalizer(e, func(e *Env) {
-		fs := e.FS
-		fs.mu.Lock()
-		fs.FS, fs.mem, fs.Log = nil, nil, nil
-		fs.mu.Unlock()
-	})
+	// NB: regatta's pebble.WithFS drops the closer of the disk-health wrapper it puts around the file
+	// system, so every opened DB leaves a ticker goroutine behind that keeps the wrapper - and through
+	// it this disk - reachable for ever; Inst.Close stops that ticker (healthCloser), otherwise
+	// millions of executions each with its own disk exhaust memory.
 	return e
 }
 
@@ -218,7 +213,45 @@ func (i *Inst) Close() (err error) {
 			err = fmt.Errorf("PANIC in Close: %v", r)
 		}
 	}()
-	return i.F.Close()
+	c := healthCloser(i.F)
+	err = i.F.Close()
+	if c != nil {
+		_ = c.Close() // stops the ticker goroutine regatta's pebble.WithFS leaves behind (see NewEnv)
+	}
+	return err
+}
+
+// healthCloser digs the disk-health wrapper (an io.Closer) out of the FSM's current pebble DB:
+// FSM.pebble (atomic.Pointer[pebble.DB]) -> DB.opts (*pebble.Options) -> Options.FS. Reading only;
+// if the layout ever differs the result is nil and the goroutine merely leaks as it does in production.
+func healthCloser(f *fsm.FSM) (c io.Closer) {
+	defer func() {
+		if recover() != nil {
+			c = nil
+		}
+	}()
+	pf := reflect.ValueOf(f).Elem().FieldByName("pebble")
+	if !pf.IsValid() {
+		return nil
+	}
+	pv := pf.FieldByName("v")
+	if !pv.IsValid() || pv.Kind() != reflect.UnsafePointer {
+		return nil
+	}
+	db := (*pebble.DB)(*(*unsafe.Pointer)(unsafe.Pointer(pv.UnsafeAddr())))
+	if db == nil {
+		return nil
+	}
+	of := reflect.ValueOf(db).Elem().FieldByName("opts")
+	if !of.IsValid() || of.Kind() != reflect.Pointer {
+		return nil
+	}
+	opts := *(**pebble.Options)(unsafe.Pointer(of.UnsafeAddr()))
+	if opts == nil {
+		return nil
+	}
+	c, _ = opts.FS.(io.Closer)
+	return c
 }
 
 // SaveSnapshot runs PrepareSnapshot + SaveSnapshot and returns the bytes. between is called after
